@@ -6,6 +6,7 @@ package btc
 import (
 	"math/big"
 
+	"github.com/btcsuite/btcd/chaincfg"
 	"github.com/btcsuite/btcd/wire"
 	"github.com/polynetwork/poly/native"
 )
@@ -14,4 +15,9 @@ import (
 // (total work 0); verification harness only (build tag verif).
 func VerifPutGenesisBlockHeader(service *native.NativeService, chainID uint64, header wire.BlockHeader, height uint32) {
 	putGenesisBlockHeader(service, chainID, StoredHeader{Header: header, Height: height, totalWork: big.NewInt(0)})
+}
+
+// VerifCalcDiffAdjust exposes the retarget computation for the named network parameters.
+func VerifCalcDiffAdjust(start, end wire.BlockHeader, p *chaincfg.Params) uint32 {
+	return calcDiffAdjust(start, end, p)
 }
